@@ -79,8 +79,9 @@ def bind_param(ex, st, p, idx):
 def verify(contract, scratch, tucache):
     """enforce the contract on the function's own body; returns (Exec, info dict)"""
     t0 = time.time()
-    tu = tucache.get(contract.tu)
+    tu = tucache.get(contract.tu, getattr(contract, 'tu_filter', 'vfps::'))
     fn = tu.function(contract.name, contract.mangled, contract.nparams)
+    aux = [tucache.get(r, f) for r, f in getattr(contract, 'aux_tus', [])]
     allobls = []
     info = {'unit': contract.name, 'file': contract.tu, 'sha': tu.sha, 'cases': len(contract.cases)}
     b, e = src_range(fn, tu.path)
@@ -88,6 +89,8 @@ def verify(contract, scratch, tucache):
     exs = []
     for ci, case in enumerate(contract.cases):
         ex = Exec(tu, fn, contract.short() + (f'@{ci}' if len(contract.cases) > 1 else ''))
+        ex.aux_tus = aux
+        ex.decl_assume = getattr(contract, 'domain_after', None)
         ex.loops = contract.loops_for(ci) if hasattr(contract, 'loops_for') else contract.loops
         ex.calls = contract.calls
         ex.default_tags = set(contract.tags)
@@ -137,7 +140,18 @@ def verify(contract, scratch, tucache):
         inits = ctor_inits(fn)
         if inits:
             run_inits(ex, st, inits, contract)
-        outs = ex.exec(body(fn), st)
+        if getattr(contract, 'slice_targets', None):
+            stmts, picked = backward_slice(body(fn), contract)
+            info['slice'] = picked
+            for vid, nm in contract._ext_ids.items():
+                st.names[vid] = nm
+                st.env[vid] = ObjRef(nm, contract.slice_externals[nm])
+            setup_slice = getattr(contract, 'slice_setup', None)
+            if setup_slice:
+                setup_slice(ex, st)
+            outs = ex.seq(stmts, st, scope=False)
+        else:
+            outs = ex.exec(body(fn), st)
         nposts = 0
         for (s, flow) in outs:
             if flow is not None and flow[0] == 'throw':
@@ -244,6 +258,113 @@ def run_inits(ex, st, inits, contract):
             store_field(ex, st, 'this', m['name'], m['type'], v)
         else:
             raise ExtractionError(f'{contract.name}: unknown initialiser form')
+
+
+def _walk(n):
+    if isinstance(n, dict):
+        yield n
+        for c in n.get('inner', []) or []:
+            yield from _walk(c)
+
+
+def _root_var(e):
+    """declaration id of the variable an lvalue expression is rooted in"""
+    while isinstance(e, dict):
+        k = e.get('kind')
+        if k == 'DeclRefExpr':
+            rd = e.get('referencedDecl', {})
+            return rd.get('id') if rd.get('kind') in ('VarDecl', 'ParmVarDecl') else None
+        if k in ('MemberExpr', 'ArraySubscriptExpr', 'ImplicitCastExpr', 'ParenExpr', 'CXXOperatorCallExpr', 'UnaryOperator',
+                 'CXXMemberCallExpr', 'MaterializeTemporaryExpr', 'CXXStaticCastExpr'):
+            inner = e.get('inner', [])
+            if not inner:
+                return None
+            # operator calls: first inner is the callee, the object is the second
+            e = inner[1] if k == 'CXXOperatorCallExpr' and len(inner) > 1 else inner[0]
+            continue
+        return None
+    return None
+
+
+MUTATORS = ('push_back', 'emplace_back', 'pop_back', 'resize', 'clear', 'swap', 'reset', 'assign', 'emplace', 'push', 'pop')
+
+
+def stmt_defs_uses(s):
+    defs, uses = set(), set()
+    for n in _walk(s):
+        k = n.get('kind')
+        if k == 'VarDecl':
+            defs.add(n['id'])
+        elif k == 'DeclRefExpr':
+            rd = n.get('referencedDecl', {})
+            if rd.get('kind') in ('VarDecl', 'ParmVarDecl'):
+                uses.add(rd['id'])
+        elif k in ('BinaryOperator', 'CompoundAssignOperator') and (n.get('opcode', '').endswith('=') and n.get('opcode') not in ('==', '!=', '<=', '>=')):
+            r = _root_var(n['inner'][0])
+            if r:
+                defs.add(r)
+        elif k == 'UnaryOperator' and n.get('opcode') in ('++', '--'):
+            r = _root_var(n['inner'][0])
+            if r:
+                defs.add(r)
+        elif k == 'CXXMemberCallExpr':
+            me = n['inner'][0]
+            if me.get('kind') == 'MemberExpr' and me.get('name') in MUTATORS:
+                r = _root_var(me['inner'][0])
+                if r:
+                    defs.add(r)
+        elif k == 'CallExpr':
+            # std::transform(first,last,out,...) and friends write through their output iterator
+            c = n['inner'][0]
+            while c.get('kind') in ('ImplicitCastExpr',):
+                c = c['inner'][0]
+            if c.get('referencedDecl', {}).get('name') in ('transform', 'copy', 'copy_n', 'fill', 'fill_n'):
+                for a in n['inner'][1:]:
+                    r = _root_var(a)
+                    if r:
+                        defs.add(r)
+    return defs, uses
+
+
+def backward_slice(bodyn, contract):
+    """statement-level backward slice of a function body for the variables named in
+    contract.slice_targets, up to (not including) the statement declaring contract.slice_stop"""
+    stmts = bodyn.get('inner', [])
+    names = {}
+    for s_ in stmts:
+        for n in _walk(s_):
+            if n.get('kind') == 'VarDecl':
+                names[n['id']] = n.get('name')
+    end = len(stmts)
+    stop = getattr(contract, 'slice_stop', None)
+    if stop:
+        for i, s_ in enumerate(stmts):
+            if s_.get('kind') == 'DeclStmt' and any(c.get('name') == stop for c in s_.get('inner', [])):
+                end = i
+                break
+        else:
+            raise ExtractionError(f'{contract.name}: slice end marker "{stop}" not found')
+    want = set(contract.slice_targets)
+    needed = set(i for i, nm in names.items() if nm in want)
+    missing = want - set(names[i] for i in needed)
+    if missing:
+        raise ExtractionError(f'{contract.name}: slice targets not found (renamed?): {sorted(missing)}')
+    keep = []
+    ext = getattr(contract, 'slice_externals', {})
+    contract._ext_ids = {i: nm for i, nm in names.items() if nm in ext}
+    for i in range(end - 1, -1, -1):
+        d, u = stmt_defs_uses(stmts[i])
+        if stmts[i].get('kind') == 'DeclStmt' and any(c.get('name') in ext for c in stmts[i].get('inner', [])):
+            continue
+        if d & needed:
+            keep.append(i)
+            needed |= u
+    keep.reverse()
+    picked = []
+    for i in keep:
+        d, u = stmt_defs_uses(stmts[i])
+        picked.append({'kind': stmts[i].get('kind'), 'defines': sorted(set(names.get(x, '?') for x in d))[:6]})
+    return [stmts[i] for i in keep], picked
 
 
 def normalise_target(t):
@@ -380,7 +501,7 @@ class TUCache:
     def __init__(self, scratch):
         self.scratch, self.cache = scratch, {}
 
-    def get(self, rel):
-        if rel not in self.cache:
-            self.cache[rel] = TU(rel, self.scratch)
-        return self.cache[rel]
+    def get(self, rel, filt='vfps::'):
+        if (rel, filt) not in self.cache:
+            self.cache[(rel, filt)] = TU(rel, self.scratch, filt)
+        return self.cache[(rel, filt)]
